@@ -573,17 +573,22 @@ Proof.
     destruct Hin as [<-|Hin]; [reflexivity|]. apply in_map_iff in Hin. destruct Hin as (a' & <- & _). reflexivity.
 Qed.
 
+Lemma timer_mw_sub b armed id p scratch cl : In cl (timer_mw b armed id p scratch) ->
+  evaluates_timers b id p = true /\ In cl (flat_map (timer_cells b) armed).
+Proof.
+  unfold timer_mw. destruct (reaches_handler (b_devcfg b) id p scratch); cbn [andb]; [|contradiction].
+  destruct (evaluates_timers b id p); [auto|contradiction].
+Qed.
+
 Theorem C03_timer_maintenance_thm : forall b armed id payload scratch cl,
   wf_board b -> In cl (timer_mw b armed id payload scratch) ->
   evaluates_timers b id payload = true /\
   exists y, In y armed /\ owns b y cl /\ timer_table (fst cl) = true /\ 0 <= snd cl < tsize (fst cl).
 Proof.
-  intros b armed id p scratch cl W Hin. unfold timer_mw in Hin.
-  destruct (reaches_handler (b_devcfg b) id p scratch && evaluates_timers b id p) eqn:E; [|contradiction].
-  apply andb_prop in E. destruct E as [_ E]. split; [exact E|].
+  intros b armed id p scratch cl W Hin. apply timer_mw_sub in Hin. destruct Hin as [E Hin]. split; [exact E|].
   apply in_flat_map in Hin. destruct Hin as (y & Hy & Hin).
-  destruct (good_timer_cells b y cl W Hin) as [[Hok Ho] Ht]. exists y.
-  split; [assumption|]. split; [assumption|]. split; [assumption|exact Hok].
+  pose proof (good_timer_cells b y cl W Hin) as G. destruct G as [G Ht]. destruct G as [Hok Ho].
+  exists y. exact (conj Hy (conj Ho (conj Ht Hok))).
 Qed.
 
 (* a slot is armed only for the channel a dispatched message names *)
@@ -591,17 +596,29 @@ Theorem C03_armed_named_thm : forall b armed id payload scratch y,
   In y (armed_after b armed id payload scratch) -> In y armed \/ named_channel id payload = Some y.
 Proof.
   intros b armed id p scratch y. unfold armed_after.
-  destruct (reaches_handler (b_devcfg b) id p scratch && evaluates_timers b id p); [|auto].
+  destruct (reaches_handler (b_devcfg b) id p scratch); cbn [andb]; [|auto].
+  destruct (evaluates_timers b id p); [|auto].
   destruct (named_channel id p) as [c|]; [|auto]. intros [<-|H]; auto.
+Qed.
+
+Lemma may_write_t_eq fixed b armed id p scratch :
+  may_write_t fixed b armed id p scratch = may_write fixed b id p scratch ++ timer_mw b armed id p scratch.
+Proof. unfold may_write_t. reflexivity. Qed.
+
+Lemma timer_mw_bounds b armed id p scratch t i : wf_board b -> In (t, i) (timer_mw b armed id p scratch) -> 0 <= i < tsize t.
+Proof.
+  intros W Hin. pose proof (C03_timer_maintenance_thm b armed id p scratch (t, i) W Hin) as Q.
+  destruct Q as [_ Q]. destruct Q as [y Q]. destruct Q as [_ Q]. destruct Q as [_ Q]. destruct Q as [_ Q]. exact Q.
 Qed.
 
 Theorem C03_in_bounds_t_thm : forall b armed id payload scratch t i,
   wf_board b -> bytes_ok payload ->
   In (t, i) (may_write_t true b armed id payload scratch) -> 0 <= i < tsize t.
 Proof.
-  intros b armed id p scratch t i W Hp Hin. unfold may_write_t in Hin. apply in_app_or in Hin. destruct Hin as [Hin|Hin].
-  - eapply C03_in_bounds_thm; eauto.
-  - destruct (C03_timer_maintenance_thm b armed id p scratch (t, i) W Hin) as (_ & y & _ & _ & _ & H). exact H.
+  intros b armed id p scratch t i W Hp Hin. rewrite may_write_t_eq in Hin.
+  apply in_app_or in Hin. destruct Hin as [H|H].
+  - exact (C03_in_bounds_thm b id p scratch t i W Hp H).
+  - exact (timer_mw_bounds b armed id p scratch t i W H).
 Qed.
 
 (* ---- decidable form of wf_board (used for the examples and witnesses) ---- *)
